@@ -2276,6 +2276,33 @@ func ruleTokenOffset(c *Ctx, r *Rep) {
 			continue
 		}
 		n++
+		// the re-location of a value error is tried first: nested under the else of the equality test that recognises a
+		// token error it is skipped whenever the two offsets coincide (`[1, "\x"]`: two bytes consumed by Token, the bad
+		// byte two bytes into the string), and the caret stays at the start of the value
+		if recomputes {
+			underElse := false
+			walkStack(fd.Body, func(q ast.Node, stack []ast.Node) bool {
+				as, ok := q.(*ast.AssignStmt)
+				if !ok || as.Tok != token.ASSIGN || len(as.Lhs) != 1 {
+					return true
+				}
+				sel, ok := unparen(as.Lhs[0]).(*ast.SelectorExpr)
+				if !ok || sel.Sel.Name != "Offset" || !strings.Contains(c.Src(as.Rhs[0]), "InputOffset()") {
+					return true
+				}
+				for i, anc := range stack {
+					ifs, ok := anc.(*ast.IfStmt)
+					if !ok || ifs.Else == nil || i+1 >= len(stack) || stack[i+1] != ast.Node(ifs.Else) {
+						continue
+					}
+					if b, ok := unparen(ifs.Cond).(*ast.BinaryExpr); ok && b.Op == token.EQL && strings.Contains(c.Src(b), "Offset") && strings.Contains(c.Src(b), "InputOffset()") {
+						underElse = true
+					}
+				}
+				return true
+			})
+			r.Check(!underElse, "token:"+declKey(fd)+":value-errors:first", tokenCall.Pos(), "%s tries the re-location of a value error before (not in the else branch of) the test `Offset == InputOffset()` that recognises a token error: %v — the scanner's byte count of a value error can equal InputOffset() by coincidence", declKey(fd), !underElse)
+		}
 		r.Check(recomputes, "token:"+declKey(fd)+":value-errors", tokenCall.Pos(), "%s recomputes the Offset of a syntax error raised *inside a value* while reading tokens from dec.InputOffset(): %v (under Token the scanner's byte count, which a value error's Offset is, excludes every structural byte Token consumed itself: `printf '[1,tru]' | gojq --stream .` puts the caret two columns to the left of where `gojq .` puts it)", declKey(fd), recomputes)
 		r.Check(adjusts, "token:"+declKey(fd), tokenCall.Pos(), "%s reads tokens with (*json.Decoder).Token and adjusts the Offset of its syntax errors: %v (`printf '[1,}' | gojq --stream .` puts the caret under the comma: Token reports the offset *of* the invalid character, Decode the offset *after* it, and both go through jsonParseError)", declKey(fd), adjusts)
 	}
